@@ -256,12 +256,19 @@ def check_stats(ck: Check, n: int):
     for _ in range(n):
         dim = rng.choice([1, 2, 3])
         k = rng.choice([0, 1, 2, 5, 9])
-        cls = rng.choice([SphericalDroplet, DiffuseDroplet])
+        from droplets.droplets import PerturbedDroplet2D
+
+        # (also members whose volume is NOT the sphere volume of their radius: 2-D droplets with non-zero shape amplitudes)
+        cls = rng.choice([SphericalDroplet, DiffuseDroplet] + ([PerturbedDroplet2D] if dim == 2 else []))
         drops = []
         for _i in range(k):
             pos = np.array([rng.uniform(-5, 5) for _ in range(dim)])
             r = rng.choice([0.0, rng.uniform(0.1, 3)])
-            drops.append(cls(pos, r) if cls is SphericalDroplet else cls(pos, r, rng.choice([None, 0.5, rng.uniform(0.1, 2)])))
+            if cls is PerturbedDroplet2D:
+                drops.append(cls(pos, r, rng.choice([None, 0.5]), amplitudes=[rng.choice([0.0, 0.3, -0.5]), rng.uniform(-0.4, 0.4)]))
+                ck.count("stats_perturbed_members")
+            else:
+                drops.append(cls(pos, r) if cls is SphericalDroplet else cls(pos, r, rng.choice([None, 0.5, rng.uniform(0.1, 2)])))
         em = Emulsion(drops)
         perm = list(drops)
         rng.shuffle(perm)
@@ -486,6 +493,27 @@ def isolation_probe(ck: Check, n: int):
                                 {"check": "consistency_rejects", "how": how}, {"kind": "consistency", "how": how, "source": src_name})
                 except ValueError:
                     pass
+        # content = the list model for EVERY kind of iterable the droplets arrive through (lists, tuples, one-shot generators / iterators /
+        # map objects, other emulsions), with and without the consistency check
+        src = [SphericalDroplet(np.array([float(i), 0.0]), 1.0 + i) for i in range(4)]
+        for fc in (False, True):
+            for how, mk in (("list", lambda: list(src)), ("tuple", lambda: tuple(src)), ("generator", lambda: (x for x in src)), ("iterator", lambda: iter(src)),
+                            ("map", lambda: map(lambda x: x, src)), ("Emulsion", lambda: Emulsion(src))):
+                ck.count("extend_through_iterables")
+                for route in ("constructor", "extend", "extend after a first member"):
+                    try:
+                        if route == "constructor":
+                            tgt, first = Emulsion(mk(), force_consistency=fc), 0
+                        else:
+                            tgt = Emulsion([SphericalDroplet(np.zeros(2), 9.0)] if route.endswith("member") else [])
+                            first = len(tgt)
+                            tgt.extend(mk(), force_consistency=fc)
+                        got = [x.radius for x in tgt][first:]
+                    except Exception as e:  # noqa: BLE001
+                        got = f"raised {type(e).__name__}"
+                    if got != [x.radius for x in src]:
+                        ck.fail(f"{route} with a {how} of 4 consistent droplets (force_consistency={fc}): content {got}, the list model holds radii {[x.radius for x in src]}",
+                                {"check": "refines_list_model", "how": how, "route": route}, {"kind": "iterables", "how": how, "route": route, "force_consistency": fc})
         # remove overlaps = the list model (closest offending pair first, its smaller member goes; C10's verified loop): chains A-B-C
         from .c10 import emulsion_case
 
